@@ -1,4 +1,5 @@
 //! clusterx — checks that need the real cluster actors in one process (C07, C08, C09, C12, C22).
+mod c07;
 mod c08;
 mod cx;
 
@@ -6,6 +7,7 @@ fn main() {
     vcommon::install_quiet_panic_hook();
     let args = vcommon::parse_args();
     match args.property.as_str() {
+        "C07" => c07::run(args),
         "C08" => c08::run(args),
         p => vcommon::machinery_fail(&format!("clusterx does not serve property {p} (yet)")),
     }
